@@ -36,6 +36,7 @@ type S struct {
 	inSubmit    map[int]bool // job ids whose submit is in progress
 	pool        *gpool.Pool
 	releaseMode int // 0 none, 1 idle, 2 while busy
+	idleWait    string
 	relCalled   bool
 	relReturned bool
 	relCallAt   time.Duration
@@ -65,7 +66,7 @@ func (s *S) Run(c *scen.Ctx) {
 	c.Describe("submitters", nsub)
 	c.Describe("jobs", njobs)
 	c.Describe("release", []string{"none", "idle", "busy"}[s.releaseMode])
-	durs := []time.Duration{0, 0, 1 * time.Millisecond, 3 * time.Millisecond, 10 * time.Millisecond}
+	durs := []time.Duration{0, 0, 1 * time.Millisecond, 3 * time.Millisecond, 10 * time.Millisecond, 40 * time.Millisecond}
 	for i := 0; i < njobs; i++ {
 		s.jobs = append(s.jobs, &job{id: i, dur: durs[simrt.Draw(len(durs), "c19.dur")]})
 	}
@@ -85,6 +86,17 @@ func (s *S) Run(c *scen.Ctx) {
 			n := len(s.inSubmit)
 			rel := s.relCalled
 			s.mu.Unlock()
+			// work conservation: in a quiescent state a submitted job does not wait while a worker is free
+			if !rel {
+				s.mu.Lock()
+				now := simrt.Elapsed()
+				for _, j := range s.jobs {
+					if j.submitted && j.starts == 0 && now-j.subEnd >= 2*time.Millisecond && s.running < s.size && s.idleWait == "" {
+						s.idleWait = fmt.Sprintf("job %d was handed to the pool at %v and had not started at %v although only %d of %d workers were busy", j.id, j.subEnd, now, s.running, s.size)
+					}
+				}
+				s.mu.Unlock()
+			}
 			if n > 0 && !rel {
 				s.blockedChecks++
 				if l, cp := len(s.pool.JobQueue), cap(s.pool.JobQueue); l < cp {
@@ -196,6 +208,9 @@ func (s *S) Check(c *scen.Ctx, res *simrt.Result) {
 	s.mu.Lock()
 	defer s.mu.Unlock()
 	c.Count("probe.blocked_submitter_samples", s.blockedChecks)
+	if s.idleWait != "" && res.Stalls == 0 {
+		c.Fail("C19", "job-waits-while-worker-idle", "dispatch", "%s (no goroutine was stalled)", s.idleWait)
+	}
 	if s.highWater > s.size {
 		c.Fail("C19", "parallelism", "pool", "%d jobs were running at the same time in a pool of %d workers", s.highWater, s.size)
 	}
